@@ -29,7 +29,7 @@ Definition obs_is (o : obs) (out : string) (code : nat) : bool :=
 
 (* failing clause numbers: 1 = ImplSem vs implementation (tie), 2 = RefSem vs implementation
    (property), 3 = program not wf, 4 = class table not well-formed, 5 = model out of fuel,
-   6 = program outside the clean fragment (generator error) *)
+   6 = C02's [clean] hook is false (it holds of every program: cannot happen) *)
 Definition check_case (c : case) : list nat :=
   let '(cs, is, p, out, code) := c in
   let t := mk_table cs is in
